@@ -157,8 +157,10 @@ fn shape(k: &Keys, s: u8) -> (Vec<(Pubkey, bool)>, Vec<u16>, Vec<u8>) {
         3 => (vec![(k.x, false), (k.wallet, false), (k.y, true)], vec![], vec![1, 2]),
         // invalid: a signer flag on an account that is not the executor wallet
         4 => (vec![(k.wallet, true), (k.x, false)], vec![1], vec![9]),
-        // invalid: wallet and another account both marked
-        _ => (vec![(k.y, true), (k.wallet, true)], vec![0, 1], vec![]),
+        // invalid: another account and the wallet both marked
+        5 => (vec![(k.y, true), (k.wallet, true)], vec![0, 1], vec![]),
+        // invalid: the wallet first, then a foreign account, both marked
+        _ => (vec![(k.wallet, true), (k.x, false), (k.y, true)], vec![0, 2], vec![3]),
     }
 }
 
@@ -408,6 +410,7 @@ pub fn run_c36(cli: &Cli) -> Report {
         Act::Create(0, 0, Keeper),
         Act::Create(1, 1, Keeper),
         Act::Create(0, 4, Keeper),
+        Act::Create(1, 6, Keeper),
         Act::Create(1, 0, Stranger),
         Act::Approve(0, Approver1),
         Act::Approve(0, Approver2),
